@@ -15,6 +15,7 @@ pub struct Guard(u64);
 
 impl Drop for Guard {
     fn drop(&mut self) {
+        crate::crumb::clear();
         if let Some(m) = JOBS.lock().unwrap().as_mut() {
             m.remove(&self.0);
         }
@@ -22,6 +23,7 @@ impl Drop for Guard {
 }
 
 pub fn enter(sig: String, text: String, args: Vec<String>) -> Guard {
+    crate::crumb::set_owned(&args);
     let id = NEXT.fetch_add(1, std::sync::atomic::Ordering::Relaxed);
     let mut g = JOBS.lock().unwrap();
     g.get_or_insert_with(HashMap::new).insert(id, (Instant::now(), sig, text, args));
